@@ -290,7 +290,7 @@ func runBatch(emit func(string), cfgTok, script string) {
 				state = p.state(vt)
 			case 'S':
 				addFiller()
-				state, _ = waitState(p, vt, oracle(acc), 12*time.Second)
+				state, _ = waitState(p, vt, oracle(acc), 6*time.Second)
 			case 'Z':
 				// fill the current batch; the last filler is the last operation of the last batch
 				for pad := bc.maxSize - sinceFlush%bc.maxSize; pad > 0; pad-- {
@@ -358,6 +358,9 @@ func randPinTok(r *common.Rng, cid int) string {
 }
 
 func genBatchScript(r *common.Rng, thorough bool) (string, string) {
+	if r.Chance(1, 60) { // malformed stream: must be skipped with a comment line, never crash the harness
+		return []string{"Z0.0", "Q", "Z2.50", "S3.1"}[r.Intn(4)], []string{"P;f", "U99;f", "gq;f", "P0/d;f", ";;;"}[r.Intn(5)]
+	}
 	ncid := 1 + r.Intn(4)
 	op := func() string {
 		c := r.Intn(ncid)
@@ -423,7 +426,7 @@ func genBatchScript(r *common.Rng, thorough bool) (string, string) {
 		st = append(st, "h")
 		st = append(st, ops(size)...)
 		st = append(st, "w")
-		st = append(st, ops(q+r.Range(1, 4))...)
+		st = append(st, ops(q+r.Range(0, 4))...) // exactly the queue's capacity up to 4 more
 		g := "go"
 		if r.Chance(1, 3) {
 			g = "g" + string(classes[r.Intn(4)])
